@@ -148,3 +148,32 @@ def r3(cx):
             cx.passed(k, "own-chunk-selection", [c["sp"]])
         else:
             cx.violation(k, "own-chunk-selection", "%s: the chunk list registered for this query does not come from this query's catalog selection" % c["sp"], [c["sp"]])
+
+
+@rule("C10", "R4", "no suspension point between binding and planning in the caller's operation: in every closure handed to with_metrics_table no await is reachable before the "
+      "statement has been handed to the engine (the known race is a few instructions wide; an await on external I/O in that gap turns it into a certainty under load)")
+def r4(cx):
+    n = 0
+    for k, c in cx.prog.sites(lambda c: c == WMT):
+        for f in c.get("fargs", []):
+            for k2 in cx.prog.sub_bodies(f):
+                if cx.prog.calls[k2].get("kind") != "coroutine":
+                    continue
+                b = cx.body(k2)
+                if b is None:
+                    continue
+                execs = set(M.find_calls(b, lambda x: x in EXEC))
+                if not execs:
+                    continue
+                n += 1
+                reach = b.reachable(0, removed_blocks=execs)
+                ys = [bi for bi in sorted(reach) if b.term(bi)["k"] == "yield"]
+                if ys:
+                    # which awaited call is it
+                    awaited = [b.term(x)["callee"] for x in sorted(reach) if b.term(x)["k"] == "call" and not b.term(x)["callee"].startswith(("std::", "core::", "futures::"))]
+                    cx.violation(k2, "await-before-planning", "%s: the operation awaits %s after `metrics` was bound and before the statement is planned: a concurrent query's registration "
+                                 "landing during that wait re-binds the table, and this statement runs against the other query's chunk set" % (b.sp(ys[0]), awaited[-1] if awaited else "something"),
+                                 [b.sp(ys[0])])
+                else:
+                    cx.passed(k2, "await-before-planning", [b.sp(sorted(execs)[0])])
+    cx.floor("operation bodies that execute a statement", n, 2)
